@@ -1147,6 +1147,20 @@ impl TryFrom<&mut Peekable<Lexer>> for ParserNode {
                                     // try to get immediate
                                     lex.get_any()?;
                                     values.push(imm);
+                                } else if let (
+                                    DataType::Float | DataType::Double,
+                                    TokenType::Symbol(number),
+                                ) = (&data_type, next.token_type())
+                                {
+                                    // A number with a fraction or an exponent:
+                                    // only its whole part is kept (the analysis
+                                    // does not look at floating-point data)
+                                    let Ok(value) = number.parse::<f64>() else {
+                                        break;
+                                    };
+                                    lex.get_any()?;
+                                    #[allow(clippy::cast_possible_truncation)]
+                                    values.push(With::new(Imm::new(value as i32), next.clone()));
                                 } else {
                                     break;
                                 }
